@@ -189,7 +189,8 @@ def py_u64(b):
 
 
 NUM_POOL = ["0", "1", "2", "7", "10", "18446744073709551615", "18446744073709551616", "18446744073709551614",
-            "+5", "007", "+0", "-1", "", " 3", "3 ", "1e3", "0x10", "99999999999999999999999", "+", "++1", "５"]
+            "+5", "007", "+0", "-1", "", " 3", "3 ", "1e3", "0x10", "99999999999999999999999", "+", "++1", "５",
+            "4900.0", "1e+06", "-0", "0.0", "1_000", "inf", "NaN", "9007199254740993", "0b1", "١"]
 
 
 def rand_num_text(rng, valid_bias=0.8):
@@ -241,8 +242,10 @@ def gen_C14(rng, tier):
 
 
 def gen_header_text(rng, corrupt=0.3):
-    c = dict(score=rng.randint(0, 10 ** 6), tname=rng.choice(gen.NAMES), tsize=rng.randint(0, 200), tstrand=rng.choice("+-"),
-             qname=rng.choice(gen.NAMES), qsize=rng.randint(0, 200), qstrand=rng.choice("+-"), id=rng.randint(0, 999))
+    big = [2 ** 53 + 1, 2 ** 63 - 1, 2 ** 63 + 1, U64, U64 - 1, 10 ** 19, 9007199254740993]
+    c = dict(score=rng.choice(big) if rng.random() < 0.2 else rng.randint(0, 10 ** 6), tname=rng.choice(gen.NAMES), tsize=rng.randint(0, 200),
+             tstrand=rng.choice("+-"), qname=rng.choice(gen.NAMES), qsize=rng.randint(0, 200), qstrand=rng.choice("+-"),
+             id=rng.choice(big) if rng.random() < 0.2 else rng.randint(0, 999))
     c["tend"] = rng.randint(0, c["tsize"]); c["tstart"] = rng.randint(0, c["tend"])
     c["qend"] = rng.randint(0, c["qsize"]); c["qstart"] = rng.randint(0, c["qend"])
     if rng.random() < 0.2:
@@ -261,7 +264,7 @@ def gen_header_text(rng, corrupt=0.3):
             j = rng.choice([3, 5, 6, 8, 10, 11])
             fields[j] = str(max(0, int(fields[j]) + rng.choice([-2, -1, 1, 2, 1000]))) if fields[j].isdigit() else fields[j]
         elif m < 0.85:
-            fields[rng.choice([1, 3, 5, 6, 8, 10, 11, 12])] = rand_num_text(rng, 0.5)
+            fields[rng.choice([1, 1, 3, 5, 6, 8, 10, 11, 12, 12])] = rand_num_text(rng, 0.4)
         else:
             return " ".join(fields).replace(" ", rng.choice(["\t", "  ", " "]), 1).encode("utf-8")
     return " ".join(fields).encode("utf-8")
